@@ -158,10 +158,10 @@ PROPS["C12"]["harness"] = "harness.combo:C12"
 PROPS["C12"]["explanation"] += " http level: native harness drives http.Server over a fake socket in virtual tyme (silent, partial request then silent, bursts, steady traffic)."
 
 PROPS["C13"] = dict(
-    contracts=["contracts.http_parse", "contracts.c13_body", "contracts.c13_leader"], harness="harness.http_native:C13", level="other", trusted_base=HTTP_EXT,
+    contracts=["contracts.http_parse", "contracts.c13_body", "contracts.c13_leader", "contracts.c13_head_client"], harness="harness.http_native:C13", level="other", trusted_base=HTTP_EXT,
     assumptions=["L-FRAG (lemmas/LFrag.lean): idle-stutter + prefix-stability of every step imply independence of any fragmentation; machine-checked over abstract steps",
                  "parseLeader/parseChunk/parseHead/parseBody steps are not under pyvc contract yet (no coroutine support for next(sub-generator) in the engine): bounded natively"],
-    explanation="PROVED as generators under contract with the environment appending arbitrary bytes (and possibly closing the connection) at every wait: httping.parseLeader, one ARBITRARY turn of its line loop after any history of waits (a wait never consumes; a line is found from position 0 of the whole buffer, so a terminator straddling two reads is found; exactly line + terminator consumed; header stored as name / stripped value; empty line yields the headers; only HTTPException subclasses) -- contracts/c13_leader.py; Requestant.parseBody and the client-side Respondent.parseBody (plus its read-until-close mode: body = everything received in order until the server closes): a length-delimited body is exactly the next L bytes of the stream, exactly those consumed, PrematureClosure only when closed short; a chunked body is the data chunks in order for any number of chunks; neither -> HTTPException -- contracts/c13_body.py. parseLine (the leaf of every HTTP parser) PROVED per step for symbolic buffers: a step that waits leaves the buffer untouched (idle-stutter); a step that yields a line "
+    explanation="PROVED as generators under contract with the environment appending arbitrary bytes (and possibly closing the connection) at every wait: httping.parseLeader, one ARBITRARY turn of its line loop after any history of waits (a wait never consumes; a line is found from position 0 of the whole buffer, so a terminator straddling two reads is found; exactly line + terminator consumed; header stored as name / stripped value; empty line yields the headers; only HTTPException subclasses) -- contracts/c13_leader.py; the client-side Respondent.parseHead (fresh header mapping holding exactly the FINAL response's header block after any number of 100-continue responses; status, version, chunked, length rules incl. 204/304/1xx/HEAD; redirectant exactly for 300/301/302/303/307 with a Location; the event source of an event-stream response reads THIS response's body whatever an earlier response left behind -- contracts/c13_head_client.py); Requestant.parseBody and the client-side Respondent.parseBody (plus its read-until-close mode: body = everything received in order until the server closes): a length-delimited body is exactly the next L bytes of the stream, exactly those consumed, PrematureClosure only when closed short; a chunked body is the data chunks in order for any number of chunks; neither -> HTTPException -- contracts/c13_body.py. parseLine (the leaf of every HTTP parser) PROVED per step for symbolic buffers: a step that waits leaves the buffer untouched (idle-stutter); a step that yields a line "
                 "yields the bytes up to the EARLIEST terminator and consumes line+terminator; progress on b implies the same progress on b++e with rest++e (prefix-stability, relational "
                 "two-run VC; z3 with cvc5 taking the str.indexof queries z3 leaves unknown). Proved for eols=(CRLF,); for (CRLF, LF) the code searches by terminator precedence, which is "
                 "a recorded finding. " + HTTP_NOTE)
@@ -170,7 +170,7 @@ PROPS["C17"] = dict(
     explanation="PROVED: parseChunk as a generator under contract with the environment appending arbitrary bytes at every wait (contracts/c17_chunk.py; parseLine/parseLeader by their callee contracts, no chunk extension): size = hex value of the stripped size line, rejected with HTTPException iff empty or not all hex digits; the chunk is exactly the first `size` bytes of the stream after the size line (it waits for them), exactly those are consumed, the line after the data must be empty, framing lines end with CRLF only; last chunk carries the parsed trailers. parseLine step contracts with eols=(CRLF,) PROVED (chunk-size and chunk-end lines). Chunk decode round trip packChunk -> parseChunk over random bodies, chunk partitions, "
                 "trailers and wire fragmentations, and rejection of non-plain-hex sizes: bounded natively. " + HTTP_NOTE)
 PROPS["C15"] = dict(
-    contracts=["contracts.http_parse", "contracts.c15_events"], harness="harness.http_native:C15", level="other", trusted_base=HTTP_EXT,
+    contracts=["contracts.http_parse", "contracts.c15_events", "contracts.c13_head_client"], harness="harness.http_native:C15", level="other", trusted_base=HTTP_EXT,
     explanation="PROVED: one ARBITRARY turn of EventSource.parseEvents as a generator under contract (contracts/c15_events.py; pending id/name and a list of data lines of any length arbitrary at the head of the turn; parseLine by callee contract with eols (CRLF, LF, CR)): a wait changes nothing; an empty line dispatches -- JOIN of the data lines, exactly one event {id, name, data} iff data is non-empty (parsed JSON when dictable), then name and data reset, id kept; comment lines change nothing; event/data/id/retry fields update exactly their slot with the value minus ONE leading space, data appended as the LAST line; unknown fields ignored; no event is queued except by a dispatch; the run ends only after the dispatch on a closed connection. parseLine step contracts with eols=(CRLF, LF, CR) (earliest-terminator and prefix-stability clauses: both are recorded findings on this tree). Event dispatch against an SSE reference "
                 "written from the ABNF, plain and chunked transport, all line-terminator mixes, fragmentations: bounded natively. " + HTTP_NOTE)
 PROPS["C16"] = dict(
@@ -209,7 +209,7 @@ PROPS["C18"] = dict(
                 "socket byte stream parsed by an independent strict parser: framing, order, body clamp, close decision. The HTTP/1.0 keep-alive response without a length is a "
                 "recorded finding (not self-delimiting on an open connection).")
 PROPS["C19"] = dict(
-    contracts=["contracts.http_client", "contracts.c13_body"], harness="harness.http_native:C19", level="proof",
+    contracts=["contracts.http_client", "contracts.c13_body", "contracts.c13_head_client"], harness="harness.http_native:C19", level="proof",
     trusted_base=["Requester.rebuild/build, Respondent.parse/dictify/reinit, tcp connector tx/close/reopen: EXT summaries (arbitrary result or exception) -- the "
                   "parser side is covered by C13/C15/C18 checks, the connector by the tcp contracts",
                   "copy.copy = shallow copy with equal items; deque.append adds at the right end; urlsplit/unquote/urljoin, httping.normalizeHostPort, "
@@ -307,7 +307,7 @@ PROPS["C22"] = dict(
                 "memo differing from the sent one is delivered.")
 
 PROPS["C23"] = dict(
-    contracts=["contracts.c23_durq", "contracts.c23_dusq"], harness="harness.durable_native:C23", level="other",
+    contracts=["contracts.c23_durq", "contracts.c23_dusq", "contracts.c24_subers"], harness="harness.durable_native:C23", level="other",
     technique="contract-based deductive verification (pyvc) of Durq.push/pull/clear/extend/sync against a FIFO model of the store entry; bounded model-based runtime check "
               "against FIFO / ordered-set models with a real LMDB store for Dusq, the store itself and reopen",
     trusted_base=["EXT: the sub-database entry at the queue's key is a FIFO list (add/put append, pop takes the first, rem empties, cnt, getIter in order, pin replaces): "
@@ -317,17 +317,17 @@ PROPS["C23"] = dict(
     explanation="PROVED for a queue of ANY length (window encoding): from a state where memory and durable copy hold the same values in the same order, push appends the value at the "
                 "right end of both, pull removes and returns the first value of both (None / IndexError when empty, nothing changed), clear empties both, extend appends all new "
                 "values in order to both -- so the two stay equal and the 'cache/durable mismatch' HierError is unreachable; sync from ARBITRARY contents makes memory exactly the "
-                "durable copy when that is non-empty (what reopen + resync relies on) and otherwise writes memory out; a non-durable queue never touches the store. Dusq.push/pull/remove/clear/update/sync: the SAME abstract ordered-set operation is applied to memory and to the durable copy, results are as stated (push True and gained iff absent, pull = first inserted, remove True iff present), no mismatch error. "
+                "durable copy when that is non-empty (what reopen + resync relies on) and otherwise writes memory out; a non-durable queue never touches the store. IoSuber (list store behind a Durq) and IoSetSuber (set store behind a Dusq) delegate every add/put/pin/pop/rem/cnt to the matching list- or set-operation of the database, once, with every value serialized in order (contracts/c24_subers.py). Dusq.push/pull/remove/clear/update/sync: the SAME abstract ordered-set operation is applied to memory and to the durable copy, results are as stated (push True and gained iff absent, pull = first inserted, remove True iff present), no mismatch error. "
                 "BOUNDED: random sequences (<= 7) of push/pull/extend/update/remove/clear over 4 values with duplicates on durable Durq and Dusq with a real LMDB store, close + "
                 "reopen and resync of a FRESH queue object at random positions; after every operation the cache and the durable copy must equal the model.")
 PROPS["C24"] = dict(
-    contracts=["contracts.c24_suffix"], harness="harness.durable_native:C24", level="other",
+    contracts=["contracts.c24_suffix", "contracts.c24_subers"], harness="harness.durable_native:C24", level="other",
     technique="contract-based deductive verification (pyvc, cvc5 for the word equation) of the io-key encoding Duror.suffix / unsuffix; bounded model-based runtime check against "
               "dict-of-value / list / ordered-set models with a real LMDB store for every store operation",
     trusted_base=["EXT: b'%032x' % ion is HEX32(ion): 32 characters without '.', int(HEX32(i), 16) == i; bytes.rsplit(sep, 1) splits at the rightmost separator; "
                   "everything inside LMDB (cursor order, set_range, delete) is outside the verifier's reach"],
     assumptions=["only the key encoding is under contract; put/pin/add/get/pop/rem/cnt over cursors and the non-interference between keys are decided by the bounded tier only"],
-    explanation="PROVED for any key bytes (also keys containing or ending with the separator, or looking like another key's io-key) and any ordinal: suffix(key, ion) == key ++ '.' ++ "
+    explanation="PROVED: IoSuber and IoSetSuber delegate every add/put/pin/pop/rem/cnt to the matching list- or set-operation of the database, exactly once, on their own sub-database and key, every value serialized in order, the answer returned unchanged (contracts/c24_subers.py). PROVED for any key bytes (also keys containing or ending with the separator, or looking like another key's io-key) and any ordinal: suffix(key, ion) == key ++ '.' ++ "
                 "32 hex digits; unsuffix(suffix(key, ion)) == (key, ion); the encoding is injective, so io-keys of different (key, ordinal) pairs never collide. "
                 "BOUNDED: random sequences (<= 9) of put/pin/add/get/pop/rem/cnt on Suber, IoSuber, IoSetSuber over adversarial key sets (prefixes of each other, keys containing the "
                 "separator, keys that look like another key's io-key) with a real LMDB store; after every operation EVERY key of the set is read back and compared with the model "
